@@ -130,7 +130,9 @@ Section Oracles.
      activation view of the model.  DecodeActivationClaims is an unknown function of the token text: the model's [act_of],
      nil when decoding fails. *)
   Variable act_of : string -> option act_view.
-  Inductive gvi := IVnil | IVimport (i : import) | IVact (av : act_view).
+  (* (the further shapes are the other opaque values Account.Validate meets: an export of the list, the scope filed
+     under a signing key - known by its own key -, what url.Parse returns) *)
+  Inductive gvi := IVnil | IVimport (i : import) | IVact (av : act_view) | IVexport (e : export) | IVscope (key : string) | IVurl (u : url_view).
   Definition o_decode_act (tok : string) : gvi * option string :=
     match act_of tok with Some av => (IVact av, None) | None => (IVnil, Some "invalid activation token") end.
   Definition o_act {A} (f : act_view -> A) (d : A) (v : gvi) : A := match v with IVact av => f av | _ => d end.
